@@ -32,7 +32,7 @@ FUNCS = ("alpha", "beta", "gamma", "delta", "al", "bl", "first", "Path")
 def modname(which: str, pkg: str) -> str:
     if which == "extra":
         return "extra"
-    if pkg == "flat":
+    if pkg in ("flat", "flatshadow"):
         return which
     if pkg in ("subabs", "subrel"):            # mid is an ordinary module of the package, next to base
         return {"base": "pkg.impl", "mid": "pkg.lib", "top": "top"}[which]
@@ -77,8 +77,14 @@ def build_tree(rec: dict) -> Dict[str, str]:
     mid_src = modname("base", pkg)
     rel = ".impl" if pkg in ("pkgrel", "subrel") else None
     mid = import_stmt(c["mid"], mid_src, wanted_base, "mid", rel) + '\n\ndef gamma():\n    return "gamma@mid"\n'
+    # a dead module file next to the package of the same name: the import system takes the package
+    stale = 'def alpha():\n    return "alpha@stale"\n\n\ndef gamma():\n    return "gamma@stale"\n\n\ndef omega():\n    return "omega@stale"\n'
     if pkg == "flat":
         files["base.py"], files["mid.py"] = base, mid
+    elif pkg == "flatshadow":
+        files["base.py"], files["mid/__init__.py"], files["mid.py"] = base, mid, stale
+    elif pkg == "pkgshadow":
+        files["pkg/impl.py"], files["pkg/__init__.py"], files["pkg.py"] = base, mid, stale
     elif pkg in ("subabs", "subrel"):
         files["pkg/impl.py"], files["pkg/lib.py"], files["pkg/__init__.py"] = base, mid, ""
     else:
@@ -221,12 +227,14 @@ def _case(mods, rec):
 STD_STMT = {"import_os_path": "import os.path", "import_os_path_sep": "import os.path", "import_conc_futures": "import concurrent.futures", "import_xml_minidom": "import xml.dom.minidom",
             "import_xml_etree": "import xml.etree.ElementTree", "from_os_path": "from os import path", "from_sys_path": "from sys import path", "import_json_as_j": "import json as j",
             "import_json": "import json", "from_json_dumps": "from json import dumps as dump", "from_pickle_dumps": "from pickle import dumps as dump",
-            "from_ospath_join": "from os.path import join", "from_shlex_join": "from shlex import join", "import_pickle_as_json": "import pickle as json"}
+            "from_ospath_join": "from os.path import join", "from_shlex_join": "from shlex import join", "import_pickle_as_json": "import pickle as json",
+            "import_email_mime_root": "import email.mime.text", "import_email_mime_mid": "import email.mime.text", "import_xml_dom_root": "import xml.dom.minidom"}
 # the expression by which the client uses what a statement binds (one per statement)
 STD_USE = {"import_os_path": "os.path.join", "import_os_path_sep": "os.sep", "import_conc_futures": "concurrent.futures.Future", "import_xml_minidom": "xml.dom.minidom.parseString",
            "import_xml_etree": "xml.etree.ElementTree.Element", "from_os_path": "path", "from_sys_path": "path", "import_json_as_j": "j.loads",
            "import_json": "json.loads", "from_json_dumps": "dump", "from_pickle_dumps": "dump", "from_ospath_join": "join", "from_shlex_join": "join",
-           "import_pickle_as_json": "json.loads"}
+           "import_pickle_as_json": "json.loads", "import_email_mime_root": "email.message_from_string", "import_email_mime_mid": "email.mime.__name__",
+           "import_xml_dom_root": "xml.__name__"}
 
 
 # (name bound, object) per statement, as in the catalogue of Imports.tla
@@ -234,7 +242,8 @@ STD_BIND = {"import_os_path": ("os", "mod:os"), "import_os_path_sep": ("os", "mo
             "import_xml_etree": ("xml", "mod:xml"), "from_os_path": ("path", "mod:os.path"), "from_sys_path": ("path", "sys.path"),
             "import_json_as_j": ("j", "mod:json"), "import_json": ("json", "mod:json"), "from_json_dumps": ("dump", "json.dumps"),
             "from_pickle_dumps": ("dump", "pickle.dumps"), "from_ospath_join": ("join", "os.path.join"), "from_shlex_join": ("join", "shlex.join"),
-            "import_pickle_as_json": ("json", "mod:pickle")}
+            "import_pickle_as_json": ("json", "mod:pickle"), "import_email_mime_root": ("email", "mod:email"), "import_email_mime_mid": ("email", "mod:email"),
+            "import_xml_dom_root": ("xml", "mod:xml")}
 
 
 def std_expected(obj: str):
@@ -371,16 +380,25 @@ def main(argv=None) -> int:
     t = tier()
     rng = random.Random(seed())
     known = rep.known_entries()
-    cfg = "\n".join(["CONSTANTS", '  BaseAlls = {"none", "alpha"}', '  MidForms = {"from", "alias", "star", "module", "redef", "swap"}',
-                     '  TopForms = {"absent", "from", "alias", "star", "module", "redef", "swap"}',
-                     '  ClientForms = {"from", "alias", "star", "module", "modalias"}',
-                     '  Variants = {"plain", "dup", "infunc", "unused", "stacked", "late", "twostars", "basestar"}', '  Pkgs = {"flat", "pkgabs", "pkgrel", "subabs", "subrel"}',
-                     f"  MaxUses = {2 if t == 'quick' else 3}", "  MaxStd = 1", '  StdPlaces = {"top"}', "INIT Init", "NEXT Next", "INVARIANT OriginsAreDefinitions", "INVARIANT Dump",
-                     "CHECK_DEADLOCK FALSE", ""])
-    res = run_tlc("Imports", cfg, timeout_s=3000, keep_stdout=False, heap_gb=12)
-    rep.add_tlc(res, "Imports")
-    if res.violated:
-        raise MachineryError(f"Imports.tla: {res.violated} fails")
+    def cfg_for(pkgs, variants, clients):
+        return "\n".join(["CONSTANTS", '  BaseAlls = {"none", "alpha"}', '  MidForms = {"from", "alias", "star", "module", "redef", "swap"}',
+                          '  TopForms = {"absent", "from", "alias", "star", "module", "redef", "swap"}',
+                          f"  ClientForms = {clients}", f"  Variants = {variants}", f"  Pkgs = {pkgs}",
+                          f"  MaxUses = {2 if t == 'quick' else 3}", "  MaxStd = 1", '  StdPlaces = {"top"}', "INIT Init", "NEXT Next",
+                          "INVARIANT OriginsAreDefinitions", "INVARIANT Dump", "CHECK_DEADLOCK FALSE", ""])
+    all_variants = '{"plain", "dup", "infunc", "unused", "stacked", "late", "twostars", "basestar"}'
+    all_clients = '{"from", "alias", "star", "module", "modalias"}'
+    cfgs = [("Imports", cfg_for('{"flat", "pkgabs", "pkgrel", "subabs", "subrel"}', all_variants, all_clients)),
+            # a dead module file next to the package of the same name: resolution must be that of the package
+            ("Imports (shadowed packages)", cfg_for('{"flatshadow", "pkgshadow"}', '{"plain", "twostars"}' if t == "quick" else all_variants,
+                                                    '{"from", "star", "module"}' if t == "quick" else all_clients))]
+    recs, shadow = [], []
+    for label, cfg in cfgs:
+        res = run_tlc("Imports", cfg, timeout_s=3000, keep_stdout=False, heap_gb=12)
+        rep.add_tlc(res, label)
+        if res.violated:
+            raise MachineryError(f"Imports.tla: {res.violated} fails")
+        (shadow if "shadow" in label else recs).extend(res.records)
     recs = res.records
     if not recs:
         raise MachineryError("Imports: no cases")
@@ -393,6 +411,8 @@ def main(argv=None) -> int:
         rest = [r for r in recs if id(r) not in chosen]
         recs = guess + rng.sample(rest, cap - len(guess))
         rep.coverage["cases_sampled"] = True
+    cap_shadow = 600 if t == "quick" else 20000
+    recs += shadow if len(shadow) <= cap_shadow else rng.sample(shadow, cap_shadow)
     results = workers.run_tasks(_case, recs, init=_init, procs=16, timeout=300, fork_per_task=True)
     n_run = n_changed = 0
     for rec, r in zip(recs, results):
